@@ -2,8 +2,9 @@
 """Gen/Lookup.lean: the literals the C14 model depends on, re-read from /repo's current
 girepository/gitypelib-internal.h, gitypelib.c, gthash.c and girmodule.c on every run:
 
-* the blob types `BLOB_IS_REGISTERED_TYPE` accepts (both preprocessor variants) and the
-  enumerators of GTypelibBlobType they denote,
+* the blob types `BLOB_IS_REGISTERED_TYPE` accepts (both preprocessor variants; found by
+  EVALUATING the compiled predicate on every enumerator of GTypelibBlobType, so that any
+  rewriting of the predicate shows up as a change of the explicit list),
 * the single blob type `g_typelib_get_dir_entry_by_error_domain` accepts,
 * the separator of the c_prefix list in `g_typelib_matches_gtype_name_prefix`,
 * in gthash.c: the width of the size counter, of a table slot, the alignment of the table,
@@ -240,6 +241,38 @@ def cache_sites():
     return res
 
 
+def eval_registered(enum, undef_inline):
+    """names of the enumerators of GTypelibBlobType for which BLOB_IS_REGISTERED_TYPE is true, in the
+    order of the enum, as computed by the compiled header itself"""
+    import shutil
+    import subprocess
+    import tempfile
+    from common import VERIF
+    shim = os.path.join(VERIF, 'glibshim', 'inc')
+    c = ['#include <stdio.h>', '#include <glib.h>']
+    if undef_inline:
+        c.append('#undef G_CAN_INLINE')
+    c += ['#include "gitypelib-internal.h"', 'int main (void) {', '  DirEntry e;']
+    for nm, _v in enum:
+        c.append('  e.blob_type = %s; if (BLOB_IS_REGISTERED_TYPE (&e)) printf ("%s\\n");' % (nm, nm))
+    c += ['  return 0;', '}']
+    tmp = tempfile.mkdtemp(prefix='giverif.lookup.', dir=os.environ.get('TMPDIR', '/var/tmp'))
+    try:
+        cfile = os.path.join(tmp, 'probe.c')
+        with open(cfile, 'w') as f:
+            f.write('\n'.join(c))
+        exe = os.path.join(tmp, 'probe')
+        p = subprocess.run(['gcc', '-w', '-DGI_COMPILATION', '-I' + shim, '-I' + REPO, '-I' + GIR, cfile, '-o', exe],
+                           stdout=subprocess.PIPE, stderr=subprocess.STDOUT)
+        if p.returncode != 0:
+            fail('BLOB_IS_REGISTERED_TYPE probe does not compile against gitypelib-internal.h: %s'
+                 % p.stdout.decode('utf-8', 'replace')[-600:])
+        out = subprocess.run([exe], stdout=subprocess.PIPE, check=True).stdout.decode()
+    finally:
+        shutil.rmtree(tmp, ignore_errors=True)
+    return out.split()
+
+
 def main():
     hdr = strip_comments(read('gitypelib-internal.h'))
     m = re.search(r'typedef\s+enum\s*\{([^}]*)\}\s*GTypelibBlobType\s*;', hdr)
@@ -260,19 +293,15 @@ def main():
         enum.append((nm, val))
     values = dict(enum)
 
-    fm = re.search(r'_blob_is_registered_type\s*\([^)]*\)\s*\{(.*?)return\s+TRUE', hdr, re.S)
-    if not fm:
-        fail('_blob_is_registered_type not found')
-    inline_names = re.findall(r'case\s+(BLOB_TYPE_\w+)\s*:', fm.group(1))
-    mm = re.search(r'#else\s*#define\s+BLOB_IS_REGISTERED_TYPE\(blob\)(.*?)#endif', hdr, re.S)
-    if not mm:
-        fail('macro variant of BLOB_IS_REGISTERED_TYPE not found')
-    macro_names = re.findall(r'\(blob\)->blob_type\s*==\s*(BLOB_TYPE_\w+)', mm.group(1))
+    # BLOB_IS_REGISTERED_TYPE is EVALUATED, not parsed: a probe compiled against the header (with the
+    # GLib shim) applies the predicate to every enumerator of GTypelibBlobType, once as the header is
+    # normally compiled (G_CAN_INLINE variant) and once with G_CAN_INLINE undefined (plain macro
+    # variant).  However the predicate is written (switch, == chain, range check), the table lists the
+    # accepted blob kinds explicitly.
+    inline_names = eval_registered(enum, undef_inline=False)
+    macro_names = eval_registered(enum, undef_inline=True)
     if not inline_names or not macro_names:
-        fail('BLOB_IS_REGISTERED_TYPE lists are empty')
-    for nm in inline_names + macro_names:
-        if nm not in values:
-            fail('unknown blob type %s' % nm)
+        fail('BLOB_IS_REGISTERED_TYPE accepts no blob type')
 
     tl = strip_comments(read('gitypelib.c'))
     body = function_body(tl, 'g_typelib_get_dir_entry_by_error_domain')
@@ -325,10 +354,11 @@ namespace GIVerif.Gen
 /-- enumerators of GTypelibBlobType as declared in the header -/
 def blobTypeEnum : List (String × Nat) := %s
 
-/-- blob types accepted by BLOB_IS_REGISTERED_TYPE, inline-function variant (names, values) -/
+/-- blob types accepted by BLOB_IS_REGISTERED_TYPE as the header is compiled (G_CAN_INLINE variant),
+    found by applying the compiled predicate to every enumerator: (names, values) in enum order -/
 def registeredInline : List (String × Nat) := %s
 
-/-- the same for the plain macro variant -/
+/-- the same with G_CAN_INLINE undefined (plain macro variant) -/
 def registeredMacro : List (String × Nat) := %s
 
 /-- blob types g_typelib_get_dir_entry_by_gtype_name looks at -/
